@@ -268,6 +268,9 @@ Value icinga::operator-(const Value& lhs, const Value& rhs)
 		if (lhs.IsEmpty())
 			return new Array();
 
+		if (rhs.IsEmpty())
+			return static_cast<Array::Ptr>(lhs)->ShallowClone();
+
 		ArrayData result;
 		Array::Ptr left = lhs;
 		Array::Ptr right = rhs;
